@@ -309,6 +309,7 @@ def c07(ctx):
 def c09(ctx):
     py_traces(ctx, ["ans", "range"])          # impossible symbols through the Python API: refused, coder unchanged
     ctx.require("py_enc_refused")
+    ctx.require("py_enc_array_with_impossible_symbol")
     ans_states(ctx, ["TypeInv", "StateInv", "LawPopAfterPush"], "c09")
     ctx.require("backend_full")
     range_hists(ctx, ["TypeInv", "StateInv"], "c09")
